@@ -15,7 +15,7 @@ from vlib.runner import Partial, campaign, shard_seed, bucket_of_exception
 ID = "C19"
 RULE = (
     "pairs of maps of 1..5 assignments each over 6 data registers (values: small expression trees over the registers), "
-    "32-bit memory cells at p+{0,4,8} / q+{0,4}, one flag bit; optional path condition reg == cst per map; merge with "
+    "memory cells of 8/16/32 bits at p+0..8 / q+0..4 (aligned 32-bit cells and overlapping mixed cells), one flag bit; optional path condition reg == cst per map; merge with "
     "widening off/on and complexity 0/30/100; 2 concrete states per pair, each satisfying the conditions of its map. "
     "Non-trivial = some location is written by both maps with different values, or a memory location is written, or a map "
     "carries a condition; distinct by (programs, options)."
@@ -52,7 +52,11 @@ def gen_map(rnd):
             prog.append(["reg", DREGS[rnd.randrange(6)], gen_exp(rnd, rnd.randrange(0, 3))])
         elif c < 0.88:
             pr = PREGS[rnd.randrange(2)]
-            prog.append(["mem", pr, [0, 4, 8][rnd.randrange(3 if pr == "p" else 2)], gen_exp(rnd, rnd.randrange(0, 3))])
+            if rnd.random() < 0.5:
+                prog.append(["mem", pr, [0, 4, 8][rnd.randrange(3 if pr == "p" else 2)], gen_exp(rnd, rnd.randrange(0, 3)), 32])
+            else:
+                # cells of mixed sizes at arbitrary offsets: overlapping ranges under different keys
+                prog.append(["mem", pr, rnd.randrange(0, 9 if pr == "p" else 5), gen_exp(rnd, rnd.randrange(0, 3)), [8, 16, 32][rnd.randrange(3)]])
         else:
             prog.append(["flag", gen_exp(rnd, 1)])
     cond = None
@@ -73,7 +77,8 @@ def build_map(spec):
         if ins[0] == "reg":
             m[E.reg(ins[1], 32)] = m(R.build(ins[2]))
         elif ins[0] == "mem":
-            m[E.mem(E.reg(ins[1], 32), 32, disp=ins[2])] = m(R.build(ins[3]))
+            sz = ins[4] if len(ins) > 4 else 32
+            m[E.mem(E.reg(ins[1], 32), sz, disp=ins[2])] = m(R.build(ins[3]))[0:sz]
         else:
             m[zf] = m(R.build(ins[1]) == 0)
     if spec["cond"]:
@@ -101,8 +106,43 @@ def locations(spec):
         if ins[0] == "reg":
             out.append(("reg", ins[1]))
         elif ins[0] == "mem":
-            out.append(("mem", PVAL[ins[1]] + ins[2]))
+            sz = ins[4] if len(ins) > 4 else 32
+            for k in range(sz // 8):
+                out.append(("mem", PVAL[ins[1]] + ins[2] + k))
     return out
+
+
+def mem_class(specs):
+    """structural class of the memory writes of the two maps"""
+    keys = []
+    for s in specs:
+        d = {}
+        for ins in s["prog"]:
+            if ins[0] == "mem":
+                sz = ins[4] if len(ins) > 4 else 32
+                # a narrower store over a wider one keeps the entry at the wider width
+                d[(ins[1], ins[2])] = max(sz, d.get((ins[1], ins[2]), 0))
+        keys.append(d)
+    cls = set()
+    for k in set(keys[0]) & set(keys[1]):
+        if keys[0][k] != keys[1][k]:
+            cls.add("samekey-diffsize")
+    cells = [(pr, off, off + sz // 8, w) for w, d in enumerate(keys) for (pr, off), sz in d.items()]
+    for i in range(len(cells)):
+        for j in range(i + 1, len(cells)):
+            a, b = cells[i], cells[j]
+            if a[0] == b[0] and (a[1], a[2]) != (b[1], b[2]) and a[1] < b[2] and b[1] < a[2]:
+                cls.add("intra-overlap" if a[3] == b[3] else "inter-overlap")
+    for s in specs:
+        seen = {}
+        for ins in s["prog"]:
+            if ins[0] == "mem":
+                k = (ins[1], ins[2])
+                sz = ins[4] if len(ins) > 4 else 32
+                if k in seen and seen[k] > sz:
+                    cls.add("narrow-after-wide")
+                seen[k] = max(sz, seen.get(k, 0))
+    return "+".join(sorted(cls)) or "plain"
 
 
 def read_loc(cm, loc):
@@ -111,10 +151,10 @@ def read_loc(cm, loc):
 
     if loc[0] == "reg":
         return cm(E.reg(loc[1], 32))
-    parts = cm.mmap.read(loc[1], 4)
-    if len(parts) == 1 and isinstance(parts[0], bytes) and len(parts[0]) == 4:
-        return E.cst(int.from_bytes(parts[0], "little"), 32)
-    if len(parts) == 1 and not isinstance(parts[0], bytes) and parts[0].size == 32:
+    parts = cm.mmap.read(loc[1], 1)  # byte granular: sound for cells of any size and overlap
+    if len(parts) == 1 and isinstance(parts[0], bytes) and len(parts[0]) == 1:
+        return E.cst(parts[0][0], 8)
+    if len(parts) == 1 and not isinstance(parts[0], bytes) and parts[0].size == 8:
         return parts[0]
     return None
 
@@ -194,7 +234,7 @@ def check(case):
                     continue
                 stats["checked"] += 1
                 if v.v not in c:
-                    fails.append(("missing-m%d:%s:%s" % (k + 1, l[0], tag), "location %r: m%d gives %#x, merged candidates %s; merged entry: %s" % (l, k + 1, v.v, sorted(hex(x) for x in c), str(vm)[:200])))
+                    fails.append(("missing-m%d:%s:%s" % (k + 1, l[0] if l[0] == "reg" else "mem-" + mem_class(specs), tag), "location %r: m%d gives %#x, merged candidates %s; merged entry: %s" % (l, k + 1, v.v, sorted(hex(x) for x in c), str(vm)[:200])))
         # registers written by neither map stay untouched
         written = {l[1] for l in locs if l[0] == "reg"}
         for r in DREGS:
